@@ -30,6 +30,8 @@ FAILS = [
     ("int_sub_overflow", ["{u}m = -2147483647", "{u}o = 2"], "{u}e = {u}m - {u}o"),
     ("int_mul_overflow", ["{u}m = 65536", "{u}o = 65536"], "{u}e = {u}m * {u}o"),
     ("int_neg_min", ["{u}m = -2147483647 - 1"], "{u}e = -{u}m"),
+    ("int_abs_min", ["{u}m = -2147483647 - 1"], "{u}e = {u}m.abs()"),
+    ("bigint_abs_min", ["{u}m = -B170141183460469231731687303715884105727 - B1"], "{u}e = {u}m.abs()"),
     ("int_opassign_overflow", ["{u}m = 2147483647"], "{u}m += 1"),
     ("bigint_add_overflow", ["{u}m = B170141183460469231731687303715884105727", "{u}o = B1"], "{u}e = {u}m + {u}o"),
     ("bigint_mul_overflow", ["{u}m = B170141183460469231731687303715884105727", "{u}o = B2"], "{u}e = {u}m * {u}o"),
@@ -44,6 +46,11 @@ FAILS = [
     ("substring_range", ["{u}s = \"ab\""], "{u}e = {u}s.substring(1, 9)"),
     ("insert_range", ["{u}s = \"ab\""], "{u}e = {u}s.insert(\"x\", 9)"),
     ("delete_range", ["{u}s = \"ab\""], "{u}e = {u}s.delete(1, 9)"),
+    # byte offsets that fall inside a multi-byte character
+    ("split_inside_char", ["{u}s = \"añob\""], "print {u}s.split(2)"),
+    ("substring_inside_char", ["{u}s = \"añob\""], "{u}e = {u}s.substring(2, 4)"),
+    ("insert_inside_char", ["{u}s = \"añob\""], "{u}e = {u}s.insert(\"x\", 2)"),
+    ("delete_inside_char", ["{u}s = \"añob\""], "{u}e = {u}s.delete(0, 2)"),
     ("remove_range", ["{u}lq: [int...] = [1, 2]"], "{u}e = {u}lq.remove(5)"),
     ("pow_negative_exponent", ["{u}m = 2", "{u}o = -1"], "{u}e = {u}m.pow({u}o)"),
     ("pow_overflow", ["{u}m = B2", "{u}o = 200"], "{u}e = {u}m.pow({u}o)"),
